@@ -104,31 +104,63 @@ func Concrete(e jrn.Entry) journal.Trip {
 	return t
 }
 
+// deepCopy copies a journal with everything it points to. It goes by reflection over whatever fields the type has, so
+// that a field added to journal.Journal, Trip or StopTime is part of the "journal is not modified" comparison too.
 func deepCopy(j *journal.Journal) *journal.Journal {
-	c := &journal.Journal{}
-	cp := func(t *time.Time) *time.Time {
-		if t == nil {
-			return nil
+	return copyValue(reflect.ValueOf(j)).Interface().(*journal.Journal)
+}
+
+func copyValue(v reflect.Value) reflect.Value {
+	switch v.Kind() {
+	case reflect.Ptr:
+		if v.IsNil() {
+			return v
 		}
-		x := *t
-		return &x
-	}
-	for _, t := range j.Trips {
-		n := t
-		n.MarkedPast = cp(t.MarkedPast)
-		n.StopTimes = nil
-		for _, s := range t.StopTimes {
-			m := s
-			m.ArrivalTime, m.DepartureTime, m.MarkedPast = cp(s.ArrivalTime), cp(s.DepartureTime), cp(s.MarkedPast)
-			if s.Track != nil {
-				x := *s.Track
-				m.Track = &x
+		if _, ok := v.Interface().(*time.Location); ok {
+			return v // shared, immutable
+		}
+		n := reflect.New(v.Type().Elem())
+		n.Elem().Set(copyValue(v.Elem()))
+		return n
+	case reflect.Slice:
+		if v.IsNil() {
+			return v
+		}
+		n := reflect.MakeSlice(v.Type(), v.Len(), v.Len())
+		for i := 0; i < v.Len(); i++ {
+			n.Index(i).Set(copyValue(v.Index(i)))
+		}
+		return n
+	case reflect.Map:
+		if v.IsNil() {
+			return v
+		}
+		n := reflect.MakeMapWithSize(v.Type(), v.Len())
+		for _, k := range v.MapKeys() {
+			n.SetMapIndex(k, copyValue(v.MapIndex(k)))
+		}
+		return n
+	case reflect.Interface:
+		if v.IsNil() {
+			return v
+		}
+		n := reflect.New(v.Type()).Elem()
+		n.Set(copyValue(v.Elem()))
+		return n
+	case reflect.Struct:
+		if _, ok := v.Interface().(time.Time); ok {
+			return v
+		}
+		n := reflect.New(v.Type()).Elem()
+		n.Set(v) // unexported fields are copied as they are
+		for i := 0; i < v.NumField(); i++ {
+			if v.Type().Field(i).IsExported() {
+				n.Field(i).Set(copyValue(v.Field(i)))
 			}
-			n.StopTimes = append(n.StopTimes, m)
 		}
-		c.Trips = append(c.Trips, n)
+		return n
 	}
-	return c
+	return v
 }
 
 func proj(j *journal.Journal) abs.Seq[jrn.Entry] {
